@@ -73,6 +73,8 @@ type getter struct {
 	headFn  func(c gcall, trusted *vh.Header) (*vh.Header, error)
 	byHFn   func(c gcall) (*vh.Header, error)
 	rangeFn func(c gcall, from *vh.Header) ([]*vh.Header, error)
+	// pre, when set, runs at the start of every getter call with the caller's context (schedule exploration: a gate)
+	pre func(ctx context.Context, kind string)
 	// gate: when non-nil, every call of the listed kind waits for a token
 	gate     chan struct{}
 	gateKind string
@@ -114,6 +116,9 @@ func (g *getter) doneCall(kind string) {
 }
 
 func (g *getter) Head(ctx context.Context, opts ...header.HeadOption[*vh.Header]) (*vh.Header, error) {
+	if g.pre != nil {
+		g.pre(ctx, "Head")
+	}
 	var p header.HeadParams[*vh.Header]
 	for _, o := range opts {
 		o(&p)
@@ -141,6 +146,9 @@ func (g *getter) Get(ctx context.Context, hash header.Hash) (*vh.Header, error) 
 }
 
 func (g *getter) GetByHeight(ctx context.Context, height uint64) (*vh.Header, error) {
+	if g.pre != nil {
+		g.pre(ctx, "GetByHeight")
+	}
 	c := g.note("GetByHeight", height, 0, nil)
 	defer g.doneCall("")
 	if g.byHFn != nil {
@@ -153,6 +161,9 @@ func (g *getter) GetByHeight(ctx context.Context, height uint64) (*vh.Header, er
 }
 
 func (g *getter) GetRangeByHeight(ctx context.Context, from *vh.Header, to uint64) ([]*vh.Header, error) {
+	if g.pre != nil {
+		g.pre(ctx, "GetRangeByHeight")
+	}
 	c := g.note("GetRangeByHeight", from.Height(), to, nil)
 	defer g.doneCall("")
 	if err := ctx.Err(); err != nil {
